@@ -78,10 +78,49 @@ func (p *Program) VerifyFunc(key string) (u *Unit, err error) {
 		u.assumeRec(t, rec)
 	}
 	u.cover(key, "pre", p.pos(fn.Pos()), "true")
+	// ghost events that stand for "this function was called": emitted on entry when their arguments and
+	// condition do not mention results, otherwise at each return
+	retEmits := []EmitSpec{}
+	for _, es := range fc.EmitEvents {
+		late := es.When != nil && mentions(es.When, fc.Results)
+		for _, a := range es.Args {
+			if mentions(a, fc.Results) {
+				late = true
+			}
+		}
+		if late {
+			retEmits = append(retEmits, es)
+			continue
+		}
+		var evs []Val
+		for _, a := range es.Args {
+			v, err := env.EvalVal(a)
+			if err != nil {
+				return u, fmt.Errorf("%s: emit %s: %v", key, es.Kind, err)
+			}
+			evs = append(evs, v)
+		}
+		if es.When != nil {
+			w, err := env.EvalBool(es.When)
+			if err != nil {
+				return u, fmt.Errorf("%s: emit %s: %v", key, es.Kind, err)
+			}
+			s2 := st.clone()
+			u.emitEvent(s2, es.Kind, evs)
+			m := u.merge([]edgeState{{u.def("g", SBool, w), s2}, {u.def("g", SBool, not(w)), st.clone()}}, "emit")
+			*st = *m
+			st.guard = "true"
+		} else {
+			u.emitEvent(st, es.Kind, evs)
+		}
+	}
 	// assigns clause -> locations at entry
 	for i, loc := range fc.Assigns {
 		if id, ok := loc.(EIdent); ok && id.Name == "*" {
 			fr.assignAll = true
+			continue
+		}
+		if pc, ok := loc.(ECall); ok && pc.Fun == "pointee" {
 			continue
 		}
 		a, err := func() (v Val, err error) {
@@ -109,6 +148,10 @@ func (p *Program) VerifyFunc(key string) (u *Unit, err error) {
 		if err != nil {
 			return u, fmt.Errorf("%s: elems: %v", key, err)
 		}
+		if _, isMap := v.Typ.Underlying().(*types.Map); isMap {
+			fr.assignLocs = append(fr.assignLocs, assignLoc{u.def("asgm", SRef, v.T), "map entries"})
+			continue
+		}
 		fr.elemBases = append(fr.elemBases, u.def("elb", SInt, "(sbase "+v.T+")"))
 	}
 	for _, h := range fc.Havoc {
@@ -133,6 +176,43 @@ func (p *Program) VerifyFunc(key string) (u *Unit, err error) {
 	}
 	_ = final
 	u.cover(key, "return", p.pos(fn.Pos()), guard)
+	for ri := range fr.rets {
+		r := &fr.rets[ri]
+		pv := map[string]Val{}
+		for n, v := range fr.cvars {
+			pv[n] = v
+		}
+		for i, n := range fc.Results {
+			if i < len(r.vals) {
+				pv[n] = r.vals[i]
+			}
+		}
+		renv := &Env{u: u, vars: pv, st: r.st, old: fr.entry, pkg: u.curPkg}
+		for _, es := range retEmits {
+			var evs []Val
+			for _, a := range es.Args {
+				v, err := renv.EvalVal(a)
+				if err != nil {
+					return u, fmt.Errorf("%s: emit %s: %v", key, es.Kind, err)
+				}
+				evs = append(evs, v)
+			}
+			if es.When != nil {
+				w, err := renv.EvalBool(es.When)
+				if err != nil {
+					return u, fmt.Errorf("%s: emit %s: %v", key, es.Kind, err)
+				}
+				s2 := r.st.clone()
+				u.emitEvent(s2, es.Kind, evs)
+				g := r.guard
+				m := u.merge([]edgeState{{u.def("g", SBool, and(g, w)), s2}, {u.def("g", SBool, and(g, not(w))), r.st.clone()}}, "emit")
+				r.st = m
+				renv.st = m
+			} else {
+				u.emitEvent(r.st, es.Kind, evs)
+			}
+		}
+	}
 	// postconditions, one case per return path (no merged heaps in the query)
 	used := map[string]int{}
 	for _, e := range fc.Ensures {
@@ -199,3 +279,41 @@ func (p *Program) VerifyLemma(ax *Axiom) (*Unit, error) {
 }
 
 var _ = types.Typ
+
+// mentions reports whether an expression refers to one of the given names.
+func mentions(e Expr, names []string) bool {
+	found := false
+	var walk func(Expr)
+	walk = func(e Expr) {
+		switch n := e.(type) {
+		case EIdent:
+			for _, nm := range names {
+				if n.Name == nm || n.Name == "result" {
+					found = true
+				}
+			}
+		case EUnary:
+			walk(n.X)
+		case EBinary:
+			walk(n.L)
+			walk(n.R)
+		case ESel:
+			walk(n.X)
+		case EIndex:
+			walk(n.X)
+			walk(n.I)
+		case ESlice:
+			walk(n.X)
+		case ECall:
+			for _, a := range n.Args {
+				walk(a)
+			}
+		case EAssert:
+			walk(n.X)
+		case EPtrType:
+			walk(n.X)
+		}
+	}
+	walk(e)
+	return found
+}
